@@ -85,13 +85,13 @@ func (e cliEv) String() string {
 // cliScenario is a program for the client harness.
 type cliScenario struct {
 	Opts       cliOpts   `json:"opts"`
-	Setup      []cliEv   `json:"setup,omitempty"`      // executed sequentially before the threads start
-	Threads    [][]cliEv `json:"threads"`              // thread 0 is the driver
-	Sequential bool      `json:"sequential,omitempty"` // the driver waits for quiescence after every event
-	Epilogue   string    `json:"epilogue,omitempty"`   // "drain+close", "close", ""
-	Probe      bool      `json:"probe,omitempty"`      // after the threads: Start(D),Start(E),resp(E),resp(D) before the epilogue
+	Setup      []cliEv   `json:"setup,omitempty"`       // executed sequentially before the threads start
+	Threads    [][]cliEv `json:"threads"`               // thread 0 is the driver
+	Sequential bool      `json:"sequential,omitempty"`  // the driver waits for quiescence after every event
+	Epilogue   string    `json:"epilogue,omitempty"`    // "drain+close", "close", ""
+	Probe      bool      `json:"probe,omitempty"`       // after the threads: Start(D),Start(E),resp(E),resp(D) before the epilogue
 	TwoClients bool      `json:"two_clients,omitempty"` // a second client with its own connection/collector shares the package pools
-	DupIDs     bool      `json:"dup_ids,omitempty"`    // scenario starts one id several times concurrently
+	DupIDs     bool      `json:"dup_ids,omitempty"`     // scenario starts one id several times concurrently
 	Prefix     []int     `json:"prefix,omitempty"`
 	Pre        int       `json:"pre,omitempty"` // preemption bound used (for replay bookkeeping)
 }
